@@ -30,6 +30,18 @@ def _piece_form(dom, i):
                        {"name": "choices", "header": ["list_name", "name", "label"], "rows": [["L", "l1", t], ["L", "l2", "two"]]}]}
 
 
+MULTILINE = ["L1\n${q0}\nL2", "L1\n${q0}\n${q9}\nL2", "\n${q0}\n", "L1\n  ${q0}  \nL2", "L1\n${q0}", "${q0}\nL2", "L1\n\n${q0}\n\nL2", "L1\n\t${q0}\n\tL2",
+             "L1 \n ${q0} \n L2 ${q9}\n", "line one\nline two\nline three", "${q0}\n${q9}", "a\r\n${q0}\r\nb"]
+
+
+def _multiline_form(t):
+    """multi-line cell text with references on lines of their own, in label / hint / translated label / choice label / note"""
+    rows = [["text", "q0", "Q0", None, None], ["text", "q9", "Q9", None, None], ["text", "q1", t, t, t.replace("L1", "F1")], ["select_one L", "q2", "S", None, None],
+            ["note", "q3", "N " + t, None, None]]
+    return {"sheets": [{"name": "survey", "header": ["type", "name", "label", "hint", "label::French (fr)"], "rows": rows},
+                       {"name": "choices", "header": ["list_name", "name", "label"], "rows": [["L", "l1", t], ["L", "l2", "two"]]}]}
+
+
 def run(rep):
     rep.rule = ("XmlWriter.tla model-checked (PrettyIsCosmetic on every DOM in bounds) and bound to the real writer; then (a) every model label DOM "
                 "(sequences of text / output pieces with leading, trailing and only-space text) is written into label, hint, translated label, choice "
@@ -56,6 +68,10 @@ def run(rep):
     for i, s in enumerate(strs if rep.tier == "thorough" else corpus.pick(strs, 300, rep.seed)):
         jobs.append({"classes": s, "fmt": "dict", "parts": ("c01", "c15")})
     rep.bounds["forms"] = {"label_piece_forms": len(doms), "decorated_structures": lim, "hostile": len(jobs) - len(doms) - lim}
+    for i, t in enumerate(MULTILINE):
+        for fmt in ("dict", "xlsx"):
+            jobs.append({"wb": _multiline_form(t), "fmt": fmt, "parts": ("c01", "c15"), "tag": {"multiline": i}})
+    rep.bounds["forms"]["multiline_templates"] = len(MULTILINE)
     # the workbooks the repository's own test-suite converts (frozen input corpus): every accepted one in both print modes
     from harness import suitecorpus
 
